@@ -151,7 +151,20 @@ func (s String) Less(v Value) bool {
 		return s.Kind() < v.Kind()
 	}
 
-	return s.String() < v.(String).String()
+	t := v.(String)
+	if s.offset != t.offset {
+		return s.offset < t.offset
+	}
+	// Compare rune by rune (a hole sorts before every character), then by length.
+	for i, r := range s.s {
+		if i >= len(t.s) {
+			return false
+		}
+		if r != t.s[i] {
+			return r < t.s[i]
+		}
+	}
+	return len(s.s) < len(t.s)
 }
 
 // Negate returns {(negateTag): s}.
